@@ -24,7 +24,42 @@ type valDom struct {
 	p     *Program
 	ed    *evalDom
 	truth *ssa.Function
-	why   string
+	// toDecimal, when set, is kept opaque (dec(v), isnum(v)) instead of being interpreted over every numeric kind
+	toDecimal *ssa.Function
+	why       string
+}
+
+// ord is the three-way comparison of a and b as one symbol; ord(b,a) is the same symbol negated.
+func (d *valDom) ord(st *State, a, b AV) AV {
+	ka, kb := avKey(a), avKey(b)
+	if kb < ka {
+		return avBin{token.SUB, avConst{constant.MakeInt64(0)}, d.ord(st, b, a)}
+	}
+	sy := avSym{tag: "ord", payload: avTuple{a, b}}
+	st.assumeInt(st.idOf(sy), token.GEQ, -1)
+	st.assumeInt(st.idOf(sy), token.LEQ, 1)
+	return sy
+}
+
+// Cmp: ordering comparisons of two symbolic strings go through the ordering symbol.
+func (d *valDom) Cmp(e *Engine, st *State, op token.Token, x, y AV) (AV, bool) {
+	sx, ok1 := x.(avSym)
+	sy, ok2 := y.(avSym)
+	if !ok1 || !ok2 || !strings.HasPrefix(sx.tag, "asserted:string") || !strings.HasPrefix(sy.tag, "asserted:string") {
+		return nil, false
+	}
+	return d.ordCmp(e, st, op, d.ord(st, x, y)), true
+}
+
+// ordCmp: o op 0 for an ordering symbol or its negation.
+func (d *valDom) ordCmp(e *Engine, st *State, op token.Token, o AV) AV {
+	if nb, isNeg := o.(avBin); isNeg && nb.op == token.SUB {
+		if c, ok := nb.x.(avConst); ok && constant.Sign(c.v) == 0 {
+			// 0 - ord op 0  <=>  ord flip(op) 0
+			return e.binop(st, flipOp(op), nb.y, avConst{constant.MakeInt64(0)})
+		}
+	}
+	return e.binop(st, op, o, avConst{constant.MakeInt64(0)})
 }
 
 func newValDom(p *Program) *valDom {
@@ -84,6 +119,28 @@ func (d *valDom) Call(e *Engine, st *State, site ssa.CallInstruction, callee *ss
 		bad := st.clone()
 		err := avSym{id: e.fresh(), tag: "eval-err", nonNil: true}
 		return []CallOut{{St: st, Res: []AV{val, avNil{}}}, {St: bad, Res: []AV{avNil{}, err}}}, true
+	}
+	// orderings: the three-way comparison of two values is one uninterpreted symbol in {-1, 0, 1}
+	switch callee.String() {
+	case "(github.com/woodsbury/decimal128.Decimal).Cmp", "github.com/woodsbury/decimal128.Compare", "strings.Compare", "cmp.Compare[string]":
+		if len(args) == 2 {
+			return []CallOut{{St: st, Res: []AV{d.ord(st, args[0], args[1])}}}, true
+		}
+	case "(github.com/woodsbury/decimal128.Decimal).Equal":
+		return []CallOut{{St: st, Res: []AV{d.ordCmp(e, st, token.EQL, d.ord(st, args[0], args[1]))}}}, true
+	case "(github.com/woodsbury/decimal128.CmpResult).Less":
+		return []CallOut{{St: st, Res: []AV{d.ordCmp(e, st, token.LSS, args[0])}}}, true
+	case "(github.com/woodsbury/decimal128.CmpResult).LessOrEqual":
+		return []CallOut{{St: st, Res: []AV{d.ordCmp(e, st, token.LEQ, args[0])}}}, true
+	case "(github.com/woodsbury/decimal128.CmpResult).Greater":
+		return []CallOut{{St: st, Res: []AV{d.ordCmp(e, st, token.GTR, args[0])}}}, true
+	case "(github.com/woodsbury/decimal128.CmpResult).GreaterOrEqual":
+		return []CallOut{{St: st, Res: []AV{d.ordCmp(e, st, token.GEQ, args[0])}}}, true
+	case "(github.com/woodsbury/decimal128.CmpResult).Equal":
+		return []CallOut{{St: st, Res: []AV{d.ordCmp(e, st, token.EQL, args[0])}}}, true
+	}
+	if d.toDecimal != nil && callee == d.toDecimal && len(args) == 1 {
+		return []CallOut{{St: st, Res: []AV{avSym{tag: "dec", payload: args[0]}, avSym{tag: "isnum", payload: args[0]}}}}, true
 	}
 	if callee == d.truth && len(args) == 1 {
 		return []CallOut{{St: st, Res: []AV{avSym{tag: "true?", payload: args[0]}}}}, true
